@@ -24,6 +24,8 @@ func c08(c *Ctx) {
 	c08R5(c)
 	c08R6(c)
 	c08R7(c)
+	c08R8(c)
+	cachedAuthoritative(c, "C08.R9")
 	// trimming only removes idle, non-primary addresses (shared rule)
 	c03R2(c)
 	c03R6(c)
@@ -688,4 +690,74 @@ func c08R7(c *Ctx) {
 		})
 	}
 	c.Floor("C08.R7", "exhaustion-code arms", 4, n)
+}
+
+// R8: a publication that failed forces the full sync. Whatever the reason the
+// record could not be written (conflict included), the pass may already have
+// changed the cloud: every path on which Status().Update returned an error
+// evaluates the StatusChanged swap that arms NeedSyncOpenAPI.
+func c08R8(c *Ctx) {
+	p := c.P
+	c.Rule("C08.R8", "ReconcileNode.Reconcile: every path on which the write-back of the record failed (any error, conflict included) evaluates the StatusChanged swap that arms NeedSyncOpenAPI — a pass that changed the cloud and could not publish is followed by a full sync")
+	fn := p.Func(nodeCtlPkg, "ReconcileNode.Reconcile")
+	if fn == nil {
+		c.Unres("C08.R8", "ReconcileNode.Reconcile", "not found")
+		return
+	}
+	info := fn.Info()
+	n := 0
+	for _, cs := range p.CallsIn(fn) {
+		f := cs.Callee
+		if cs.Lit != nil || f == nil || f.Pkg() == nil || f.Pkg().Path() != crClientPkg || (f.Name() != "Update" && f.Name() != "Patch") || len(cs.Call.Args) < 2 {
+			continue
+		}
+		if !typeIs(info.TypeOf(cs.Call.Args[1]), modPath+"/"+apiPkg, "Node") {
+			continue
+		}
+		// only the status write-back (the finalizer patch publishes nothing of the pass)
+		sel, _ := ast.Unparen(cs.Call.Fun).(*ast.SelectorExpr)
+		if sel == nil {
+			continue
+		}
+		if inner, ok := ast.Unparen(sel.X).(*ast.CallExpr); !ok || Callee(info, inner) == nil || Callee(info, inner).Name() != "Status" {
+			continue
+		}
+		n++
+		_, lhs := assignedFromCall(fn, cs.Call)
+		if len(lhs) != 1 || lhs[0] == nil {
+			c.Bad("C08.R8", "Reconcile: the write-back's error is bound", p.Pos(cs.Call), fn.Key(), "err = Status().Update(…)", "result not bound to a variable")
+			continue
+		}
+		errObj := lhs[0]
+		q := NewPathQuery(p, fn, nil)
+		q.Prune = func(cond ast.Expr, takeTrue bool) bool {
+			be, ok := ast.Unparen(cond).(*ast.BinaryExpr)
+			if !ok || identObj(info, be.X) != errObj || !info.Types[ast.Unparen(be.Y)].IsNil() {
+				return false
+			}
+			// follow only the edges on which the error is non-nil
+			return (be.Op == token.NEQ && !takeTrue) || (be.Op == token.EQL && takeTrue)
+		}
+		arms := containsNode(func(k ast.Node) bool {
+			call, ok := k.(*ast.CallExpr)
+			if !ok {
+				return false
+			}
+			s, ok := ast.Unparen(call.Fun).(*ast.SelectorExpr)
+			if !ok {
+				return false
+			}
+			fs, ok := ast.Unparen(s.X).(*ast.SelectorExpr)
+			if !ok {
+				return false
+			}
+			fv, _ := info.ObjectOf(fs.Sel).(*types.Var)
+			return fv != nil && fv.IsField() && (fv.Name() == "StatusChanged" && s.Sel.Name == "CompareAndSwap" || fv.Name() == "NeedSyncOpenAPI" && s.Sel.Name == "Store")
+		})
+		reassigned := assignsVar(info, errObj)
+		w := q.Escapes(isExactly(cs.Call), nil, func(k ast.Node) bool { return arms(k) || reassigned(k) }, nil)
+		c.Check(w == nil, "C08.R8", "Reconcile: a failed write-back arms the full sync", p.Pos(cs.Call), fn.Key(),
+			"must-pass on err != nil: Status().Update → StatusChanged.CompareAndSwap / NeedSyncOpenAPI.Store → exit", "path: "+p.describePath(w))
+	}
+	c.Floor("C08.R8", "status write-backs of the Node record in Reconcile", 1, n)
 }
